@@ -76,10 +76,14 @@ Honest(sys, x0, fr) ==
           pis |-> [j \in 1..sys.npi |-> IF j = 1 THEN a0 ELSE st[N - 1]]]
 
 (* ---- cases ----------------------------------------------------------- *)
+\* free input cells: every assignment for N <= 4; for longer traces alternating and half/half patterns
+FrSet == IF N <= 4 THEN [1..N -> FREEVALS]
+         ELSE {[i \in 1..N |-> IF i % 2 = 1 THEN ab[1] ELSE ab[2]] : ab \in FREEVALS \X FREEVALS}
+              \cup {[i \in 1..N |-> IF i <= N \div 2 THEN ab[1] ELSE ab[2]] : ab \in FREEVALS \X FREEVALS}
 Groups ==
   IF MODE = "corrupt"
   THEN UNION {{[sid |-> sid, kind |-> "group", x0 |-> x0, fr |-> fr, row |-> 0, col |-> 0, delta |-> 0] :
-                 x0 \in FREEVALS, fr \in [1..N -> FREEVALS]} : sid \in SIDS}
+                 x0 \in FREEVALS, fr \in FrSet} : sid \in SIDS}
   ELSE UNION {{[sid |-> sid, kind |-> "group", x0 |-> 0, fr |-> pis, row |-> 0, col |-> 0, delta |-> 0] :
                  pis \in [1..SYSTEMS[sid].npi -> VALS]} : sid \in SIDS}
 CasesOf(g) ==
